@@ -51,7 +51,7 @@ def cases(draw, tier):
     if t == "positive":
         c["bases"] = None
     else:
-        bl = draw(st.one_of(st.none(), st.lists(gen.basis_string(n, alpha), min_size=1, max_size=4, unique=True)))
+        bl = draw(st.one_of(st.none(), st.lists(gen.basis_string(n, alpha), min_size=1, max_size=4, unique=True), st.lists(gen.basis_string(n, alpha), min_size=2, max_size=5)))     # the last form may list a basis twice (it then counts twice in the mean)
         if bl is not None and draw(st.booleans()) and "Z" * n not in bl:
             bl.insert(draw(st.integers(0, len(bl))), "Z" * n)      # the reference basis is what every real bases list contains
         c["bases"] = bl
@@ -190,19 +190,26 @@ def check(c):
             rot = (lambda M, b: R.kron_U(ud, b) @ M @ R.kron_U(ud, b).conj().t()) if dens else (lambda v, b: R.kron_U(ud, b) @ v)
             tdict = {b: R.c_to_lib(rot(target, b)) for b in bases}
             keep_tdict = {b: v.clone() for b, v in tdict.items()}
-            kl = TS.KL(state, tdict, space, bases=None if len(bases) % 2 else list(reversed(bases)))
+            use_keys = bool(len(bases) % 2)         # bases=None: the dictionary's own keys (each basis once) are averaged over
+            bl_dict = None if use_keys else list(reversed(bases))
+            ukeys = list(tdict.keys())
+            want_d = want if not use_keys else sum(kl_ref(born(target, b) / born(target, b).sum(), born(model, b) / born(model, b).sum()) for b in ukeys) / len(ukeys)
+            kl = TS.KL(state, tdict, space, bases=bl_dict)
             require(list(tdict.keys()) == list(keep_tdict.keys()) and all(torch.equal(tdict[b], keep_tdict[b]) for b in tdict), "target-mutated:dict",
                     "KL modified the caller's dictionary of per-basis targets")
-            kl_rep = TS.KL(state, tdict, space, bases=None if len(bases) % 2 else list(reversed(bases)))
+            kl_rep = TS.KL(state, tdict, space, bases=bl_dict)
             require(abs(kl_rep - kl) <= 1e-12 * (1 + abs(kl)), "KL:not-repeatable:dict", f"KL with the same per-basis targets changed from {kl} to {kl_rep} on a second call")
-            kl_once = TS.KL(state, lib_t, space, bases=bases)
-            require(is_plain_float(kl_once) and abs(kl - kl_once) <= 1e-8 * (1 + abs(want)), "KL:dict-vs-rotate-once",
-                    f"KL with per-basis pre-rotated targets ({kl}) differs from KL with one target to be rotated ({kl_once})")
+            kl_once = TS.KL(state, lib_t, space, bases=bases if not use_keys else ukeys)
+            require(is_plain_float(kl_once) and abs(kl - kl_once) <= 1e-8 * (1 + abs(want_d)), "KL:dict-vs-rotate-once",
+                    f"KL with per-basis pre-rotated targets ({kl}) differs from KL with one target to be rotated over the same bases ({kl_once})")
+            require(abs(kl - want_d) <= 1e-8 * (1 + abs(want_d)), "KL:value:dict", f"KL with per-basis targets = {kl}, but the mean divergence over {'the dictionary keys' if use_keys else 'the listed bases'} is {want_d}")
+            want_cmp = want_d
         else:
             kl = TS.KL(state, lib_t, space, bases=(np.array(bases) if (bases is not None and c.get("space_default")) else bases))   # list or the documented numpy array
+            want_cmp = want
         require(is_plain_float(kl), "KL:type", f"KL returned {type(kl).__name__}, not a plain real number")
-        require(abs(kl - want) <= 1e-8 * (1 + abs(want)), "KL:value" + (":bases=None" if bases is None else ""),
-                f"KL = {kl} but the mean Kullback-Leibler divergence of the Born distributions over bases {blist} is {want}")
+        require(abs(kl - want_cmp) <= 1e-8 * (1 + abs(want_cmp)), "KL:value" + (":bases=None" if bases is None else ""),
+                f"KL = {kl} but the mean Kullback-Leibler divergence of the Born distributions over bases {blist} is {want_cmp}")
         require(kl >= -2e-8, "KL:negative", f"KL divergence {kl} is negative")
     if not any(bool((p < TINY).any()) for p in ps):
         kl_own = TS.KL(state, lib_own, space, bases=bases)
